@@ -235,11 +235,12 @@ void run_case(Choices &c, Ctx &ctx)
 		}
 		case 3: { // the allocation of a growing set fails
 			size_t n = cur + 1 + c.len(40);
-			std::string src = fill(c, n, true);
+			bool by_strlen = c.coin(50); // json_object_set_string (length by strlen) or json_object_set_string_len
+			std::string src = fill(c, n, !by_strlen);
 			verif_alloc_arm(0, -1);
-			int r = json_object_set_string_len(s.j, src.data(), (int)n);
+			int r = by_strlen ? json_object_set_string(s.j, src.c_str()) : json_object_set_string_len(s.j, src.data(), (int)n);
 			long calls = verif_alloc_disarm();
-			s.log("set_string_len " + str(n) + " with failing malloc");
+			s.log(std::string(by_strlen ? "set_string " : "set_string_len ") + str(n) + " with failing malloc");
 			if (verif_alloc_faults_fired() > 0)
 			{
 				if (r != 0)
